@@ -300,7 +300,12 @@ def registry_histories(draw):
     return {"registry": True, "ops": ops}
 
 
+_REG_STATE = {"polluted": False}
+
+
 def run_registry(case):
+    if _REG_STATE["polluted"]:
+        return [], {"skipped": "temporary dictionary classes of an earlier history could not be released in this process"}
     import gc
     common.bootstrap()
     refdict.all_classes()
@@ -378,7 +383,22 @@ def run_registry(case):
         _bb.loader.avps = None                 # the registry table holds the classes; it is rebuilt at the next lookup
         gc.collect()
     if len(DiameterAVP.__subclasses__()) != n_before:
-        raise RuntimeError("harness: temporary dictionary classes were not released")
+        # something in the library still refers to objects of the temporary classes (a memo of decoded AVPs, say): empty every cache the
+        # library's modules expose and try again; if the classes stay, later registry histories of this process would start from a
+        # dictionary that already knows the pairs - they are skipped (counted), never judged on that footing
+        import sys as _sys
+        for mod in [m for n_, m in list(_sys.modules.items()) if n_.startswith("bromelia") and m is not None]:
+            for obj_ in list(vars(mod).values()):
+                for f_ in [obj_] + (list(vars(obj_).values()) if isinstance(obj_, type) else []):
+                    f_ = getattr(f_, "__func__", f_)
+                    if hasattr(f_, "cache_clear"):
+                        try:
+                            f_.cache_clear()
+                        except Exception:
+                            pass
+        gc.collect()
+        if len(DiameterAVP.__subclasses__()) != n_before:
+            _REG_STATE["polluted"] = True
     seen_s, out = set(), []
     for v in vs:
         if v.sig not in seen_s:
@@ -391,7 +411,70 @@ def struct_u32(n):
     return (n & 0xFFFFFFFF).to_bytes(4, "big")
 
 
+def check_after_history(case):
+    """the same judgement for a stream decoded by a decoder that has just refused other input (`reps` times the malformed input
+    `poison` of C03's list) or whose earlier results were edited in place by the application: what a decoder has seen before, and
+    what was done to the objects it returned, never changes how the next well-formed stream decodes"""
+    from bromelia.base import DiameterMessage
+    from . import c03
+    errors = common.lib_errors()
+    h = case["history"]
+    if h.get("poison"):
+        data = dict(c03.history_inputs())[h["poison"]]
+        for _ in range(h["reps"]):
+            try:
+                DiameterMessage.load(data)
+            except (Exception, RecursionError) + errors:
+                pass
+    if h.get("edit"):
+        try:
+            for m in DiameterMessage.load(b"".join(enc_stream(case))):
+                for a in m.avps:
+                    if type(a).__name__ in ("OriginHostAVP", "OriginRealmAVP", "UserNameAVP", "SessionIdAVP", "DestinationRealmAVP", "DestinationHostAVP", "ProxyStateAVP", "ClassAVP") \
+                            or type(a).__name__ == "DiameterAVP":
+                        a.data = b"edited-in-place"
+        except (Exception,) + errors:
+            pass
+    vs = check_stream(case)
+    known, _ = common.load_known(PID)
+    for v in vs:
+        if v.sig not in known:           # the known finding (re-flagged known AVPs) shows here under its own signature as everywhere else
+            v.sig += "/after-" + ("refused-inputs" if h.get("poison") else "in-place-edit-of-an-earlier-result")
+    return vs
+
+
+@st.composite
+def history_cases(draw):
+    case = draw(wire_stream())
+    if draw(st.booleans()):
+        name = draw(st.sampled_from(["bad-member-1-levels-down", "bad-member-2-levels-down", "bad-member-3-levels-down", "truncated-grouped",
+                                     "unknown-enumerator-in-grouped", "nest-400-279", "nest-2000-1400", "nest-40-279"]))
+        reps = draw(st.sampled_from([1, 1, 3])) if name.startswith("nest-") else draw(st.sampled_from([1, 40, 420]))
+        case["history"] = {"poison": name, "reps": reps}
+    else:
+        case["history"] = {"edit": True}
+    return case
+
+
+def _collect_history(shard, seed, n):
+    common.bootstrap()
+    refdict.all_classes()
+    col = Collector(PID, RULE)
+
+    def body(case):
+        feats = set()
+        for m in case["msgs"]:
+            _wire_features(m["avps"], 1, feats)
+        col.record(case, check_after_history(case), nontrivial=True,
+                   classes=["decoded-after-refused-inputs" if case["history"].get("poison") else "decoded-after-in-place-edit-of-an-earlier-result"] + sorted(feats & {"grouped", "nested-grouped"}))
+
+    common.hyp_collect(history_cases(), body, n, seed)
+    return col
+
+
 def run_case(case):
+    if case.get("history"):
+        return check_after_history(case)
     if case.get("conc"):
         return run_conc(case)[0]
     if case.get("registry"):
@@ -406,6 +489,9 @@ def _collect_registry(shard, seed, n):
 
     def body(case):
         vs, info = run_registry(case)
+        if info.get("skipped"):
+            col.record(case, [], nontrivial=False, classes=["registry-history-skipped"], discard=info["skipped"])
+            return
         f = ["registry-history"]
         if info["decodes_after_define"]:
             f.append("decode-after-class-defined")
@@ -461,9 +547,10 @@ def main(ctx):
         col = common.run_shards(_collect, 16, ctx.seed, n=5000)
     col.merge(common.run_shards(_collect_conc, 8 if ctx.quick else 16, ctx.seed + 77, n=25 if ctx.quick else 600))
     col.merge(common.run_shards(_collect_registry, 4 if ctx.quick else 16, ctx.seed + 99, n=100 if ctx.quick else 2000))
+    col.merge(common.run_shards(_collect_history, 8 if ctx.quick else 16, ctx.seed + 33, n=30 if ctx.quick else 800))
     for path, rec in common.load_replays(PID):
         col.record(rec["case"], run_case(rec["case"]), nontrivial=True, classes=["replay"])
-    ctx.required_classes = ["non-default-flags", "non-default-flags-nested", "unknown-pair", "multi-message", "nested-grouped",
+    ctx.required_classes = ["decoded-after-refused-inputs", "decoded-after-in-place-edit-of-an-earlier-result", "non-default-flags", "non-default-flags-nested", "unknown-pair", "multi-message", "nested-grouped",
                             "reserved-flag-bits", "grouped", "concurrent-decode-delayed-inside-registry-code", "concurrent-decode-two-delays",
                             "class-defined-after-pair-was-seen"]
     ctx.assumptions = ["Vendor-ID 0 with the V flag is not generated (RFC 6733 4.1.1 forbids it)",
